@@ -23,13 +23,14 @@ type redCase struct {
 	Content map[string]string // key -> raw JSON value
 	Extra   map[string]string // extra top-level keys -> raw JSON
 	NoSK    bool
+	Zero    bool // depth 0 and origin_server_ts 0: kept top-level keys whose value is a "zero value"
 	// Prev is the case the same worker checked immediately before: replays run it first, so that a violation that needs
 	// state left behind by the previous redaction (a reused scratch buffer) reproduces
 	Prev *redCase `json:",omitempty"`
 }
 
 func (c redCase) key() string {
-	return fmt.Sprintf("%s|%s|%s|%s|%v", c.Version, c.Type, harness.J(c.Content), harness.J(c.Extra), c.NoSK)
+	return fmt.Sprintf("%s|%s|%s|%s|%v|%v", c.Version, c.Type, harness.J(c.Content), harness.J(c.Extra), c.NoSK, c.Zero)
 }
 
 var k3 = evgen.NewKey("c.org", "ed25519:3", 3)
@@ -55,6 +56,9 @@ func (c redCase) event() []byte {
 		Prev: []string{"$p:a.org"}, Auth: []string{"$q:a.org"}, Depth: 9007199254740991, TS: 1234567890123, Extra: c.Extra}
 	if c.NoSK {
 		e.StateKey = nil
+	}
+	if c.Zero {
+		e.Depth, e.TS = 0, 0
 	}
 	if row.EventFormat != 1 {
 		e.Prev = []string{"$" + strings.Repeat("p", 43)}
@@ -208,7 +212,7 @@ func check(r *harness.Run, c redCase) error {
 func main() { harness.Main("C05", "model_checking", run) }
 
 func run(r *harness.Run) {
-	r.Rule("every protected event type + 2 unprotected types x every subset of <= K content keys from the union of all versions' keep-lists plus junk/nested keys (each with a value from a typed menu incl. 2^53-1, null, nested objects/arrays, strings needing escapes) x all 16 room versions; and every subset of 8 extra top-level keys per type. Oracle: value equality with refredact (spec tables), keep-list membership, idempotence, identity fields and hashed event ID (vs refevent) unchanged, PDU.Redact agreement (on a trusted parse, and on an untrusted parse that was co-signed first), all signatures still verify (real VerifyJSON). Non-trivial = distinct case where redaction both kept and removed content.")
+	r.Rule("every protected event type + 2 unprotected types x every subset of <= K content keys from the union of all versions' keep-lists plus junk/nested keys (each with a value from a typed menu incl. 2^53-1, null, nested objects/arrays, strings needing escapes) x all 16 room versions; and every subset of 8 extra top-level keys per type; depth 0 / origin_server_ts 0 variants. Oracle: value equality with refredact (spec tables), keep-list membership, idempotence, identity fields and hashed event ID (vs refevent) unchanged, PDU.Redact agreement (on a trusted parse, and on an untrusted parse that was co-signed first), all signatures still verify (real VerifyJSON). Non-trivial = distinct case where redaction both kept and removed content.")
 	r.Assume("ed25519 / sha256 trusted", "float-valued and >2^53 numbers in content are outside the property's alphabet")
 	r.OnReplay("red", func(raw json.RawMessage) error {
 		var c redCase
@@ -303,6 +307,11 @@ func run(r *harness.Run) {
 				c.Content[contentKeys[ki][0]] = contentKeys[ki][1]
 			}
 			report(c, check(r, c))
+			if len(ss) <= 1 {
+				cz := c
+				cz.Zero = true
+				report(cz, check(r, cz))
+			}
 			// alternative values: one key at a time
 			for _, ki := range ss {
 				if as, ok := alt[contentKeys[ki][0]]; ok && len(ss) <= 2 {
